@@ -33,18 +33,18 @@ import (
 )
 
 type nodeStats struct {
-	Ops, Genuine, Mutated, Accepted, Rejected, Panics, Execs                                                              int
-	Duplicates                                                                                                            int
-	DuplicateHist                                                                                                         map[string]int
-	MutationHist                                                                                                          map[string]int
-	OutcomeHist                                                                                                           map[string]int
-	Monitors                                                                                                              []string
-	Samples                                                                                                               []string
-	Notes                                                                                                                 []string
-	Scenarios                                                                                                             int
-	C08Compared, C08Resets, TwoRoundScenarios, C08InDealsWindow, ReinitProbes, Reinits                                    int
-	CancelledRounds                                                                                                       int
-	C08Late, C08StampsMoved, PrefilledResults, JSONVariants, KeylessReinits, ReinitVariants, ForgedOwnName, CollectedHere int
+	Ops, Genuine, Mutated, Accepted, Rejected, Panics, Execs                                                                           int
+	Duplicates                                                                                                                         int
+	DuplicateHist                                                                                                                      map[string]int
+	MutationHist                                                                                                                       map[string]int
+	OutcomeHist                                                                                                                        map[string]int
+	Monitors                                                                                                                           []string
+	Samples                                                                                                                            []string
+	Notes                                                                                                                              []string
+	Scenarios                                                                                                                          int
+	C08Compared, C08Resets, TwoRoundScenarios, C08InDealsWindow, ReinitProbes, Reinits                                                 int
+	CancelledRounds                                                                                                                    int
+	C08Late, C08StampsMoved, PrefilledResults, JSONVariants, KeylessReinits, ReinitVariants, ForgedOwnName, CollectedHere, C08RealLoop int
 }
 
 func tsTok(t time.Time) string {
